@@ -25,11 +25,9 @@ def run_battery(wr, cfg, seed, iters):
     env['CARGO_NET_OFFLINE'] = 'true'
     cmd = ['cargo', 'test', '--lib', '--offline', cfg['test'], '--', '--nocapture', '--test-threads', '1']
     t0 = time.time()
-    try:
-        p = subprocess.run(cmd, cwd=wr, env=env, capture_output=True, text=True, timeout=2400)
-        t = p.stdout + p.stderr
-    except subprocess.TimeoutExpired:
-        t = 'battery timed out'
+    rc, t = common.run_group(cmd, cwd=wr, env=env, timeout=1200)
+    if rc is None:
+        t += '\nbattery timed out'
     fails = []
     for m in re.finditer(r'VERIF-SIDE-FAIL obligation=(\S+) (.*)$', t, re.M):
         fails.append({'obligation': m.group(1), 'what': m.group(2)[:1500]})
